@@ -60,41 +60,51 @@ def run(ctx):
     ctx.coverage["traces_validated_against_impl"] = len(rec_min)
     for r in rec_min[:2] + rec_min[-1:]:
         ctx.sample(H.sample_of(r))
-    cnt = {"lockstep_builds": 0, "outputs_compared": 0, "oracle_failures": 0}
-    for r, ra in zip(rec_min, real_all):
-        h = r["hist"]
-        oa = [o for o in ra if "ok" in o]
-        for b in H.walk(h, r["real"]):
+    cnt = {"lockstep_builds": 0, "outputs_compared": 0, "oracle_failures": 0, "unreproduced_oracle_failures": 0}
+
+    def judge(h, real_min, real_all, count):
+        """-> None or (what, replay object, signature) for the first lock-step difference"""
+        oa = [o for o in real_all if "ok" in o]
+        for b in H.walk(h, real_min):
             if b["n"] >= len(oa):
                 break
             om, o_all, ws = b["obs"], oa[b["n"]], b["ws"]
-            cnt["lockstep_builds"] += 1
+            if count:
+                cnt["lockstep_builds"] += 1
             small = H.truncate(h, b["n"] + 1)
             base = {"kind": "oracle", "oracle": "lock-step all vs minimal", "history": small, "described": H.describe(small), "build": b["n"],
                     "all": {"ok": o_all["ok"], "executed": o_all["executed"]}, "minimal": {"ok": om["ok"], "executed": om["executed"]}}
             if om["ok"] != o_all["ok"]:
-                cnt["oracle_failures"] += 1
-                ctx.violation("a build succeeds under one load_outputs mode and fails under the other", base, signature="verdict-differs")
-                break
+                return ("a build succeeds under one load_outputs mode and fails under the other", base, "verdict-differs")
             if set(om["executed"]) != set(o_all["executed"]):
-                cnt["oracle_failures"] += 1
-                ctx.violation("the two load_outputs modes execute different sets of commands", base, signature="executed-set-differs")
-                break
+                return ("the two load_outputs modes execute different sets of commands", base, "executed-set-differs")
             if sorted(om["executed"]) != sorted(o_all["executed"]):
-                cnt["oracle_failures"] += 1
-                ctx.violation("minimal mode executes a command more often than mode all", base, signature="executed-multiset-differs")
-                break
+                return ("minimal mode executes a command more often than mode all", base, "executed-multiset-differs")
             for l in set(om["executed"]):
                 t = ws["targets"].get(l)
                 if t is None or not om["ok"]:
                     continue
                 for op in t["outs"]:
                     p = H.out_path(t, op)
-                    cnt["outputs_compared"] += 1
+                    if count:
+                        cnt["outputs_compared"] += 1
                     if om["fs"].get(p) != o_all["fs"].get(p):
-                        cnt["oracle_failures"] += 1
-                        ctx.violation("an output materialised under minimal differs from the one under all (a dependency output was missing or stale when the command ran)",
-                                      dict(base, path=p, minimal_bytes=om["fs"].get(p), all_bytes=o_all["fs"].get(p)), signature="materialised-output-differs")
+                        return ("an output materialised under minimal differs from the one under all (a dependency output was missing or stale when the command ran)",
+                                dict(base, path=p, minimal_bytes=om["fs"].get(p), all_bytes=o_all["fs"].get(p)), "materialised-output-differs")
+        return None
+    for i, (r, ra) in enumerate(zip(rec_min, real_all)):
+        h = r["hist"]
+        bad = judge(h, r["real"], ra, True)
+        if bad:
+            # reproducibility: both universes are run again, alone
+            rm2 = H.run_real(grog, h, ctx.scratch("c15rm%d" % i), force_minimal=True)
+            ra2 = H.run_real(grog, h, ctx.scratch("c15ra%d" % i), force_minimal=False)
+            bad = judge(h, rm2, ra2, False)
+            if not bad:
+                cnt["unreproduced_oracle_failures"] += 1
+        if bad:
+            cnt["oracle_failures"] += 1
+            ctx.violation(bad[0], bad[1], signature=bad[2])
     ctx.coverage.update(cnt)
     bad = [r for r in rec_min if r["diffs"]]
     ctx.coverage["disagreements"] = len(bad)
